@@ -15,6 +15,8 @@ def enumerate_specs(tier):
     for name, od in cat.REG.items():
         for ci, args in enumerate(od.configs(tier)):
             specs.append({"op": name, "args": args, "variant": {}})
+            if "const" in args:     # a Python constant with a float64 tensor: double precision expected
+                specs.append({"op": name, "args": args, "variant": {"dtype": "float64", "precise": True}})
             # the same configuration with the first operand arriving as a non-contiguous view
             if ci % 3 == 0 and len(od.inputs(args)[0].shape) >= 2:
                 specs.append({"op": name, "args": args, "variant": {"layout": "T" if ci % 2 == 0 else "S"}})
